@@ -1,29 +1,9 @@
-/- Invariant of the C18 model `Rm` (RecursiveMutex / RecursiveTimedMutex) for the code as it is (`patch = false`). -/
+/- Invariant and progress of the C18 model `Rm` (RecursiveMutex / RecursiveTimedMutex). -/
 import YaclibModel.Model.FiberSyncRec
 import YaclibModel.Proofs.FiberSync
 
 namespace Yaclib.FiberSync.Rm
 open Yaclib.FiberSync
-
-structure Inv (k : Bool) (s : State) : Prop where
-  hk : s.timed = k
-  np : s.patch = false
-  /-- `_occupied_count` = number of acquisitions not yet released -/
-  cnt : s.count = s.holders.length
-  /-- every holder is the recorded owner (so all holders are one fiber) -/
-  own : ∀ a, a ∈ s.holders → s.owner = some a
-  /-- D4: nobody is ever woken by a notify … -/
-  no_woke : ∀ g, (s.pc g).woke = false
-  no_rechecks : ∀ g, (s.pc g).rechecks = false
-  /-- … which is why D6 never strikes -/
-  barge0 : s.barge = 0
-  rq_pc : ∀ g, g ∈ s.rq → (s.pc g).inQ = true
-  pc_rq : ∀ g, (s.pc g).inQ = true → g ∈ s.rq
-  dl : ∀ g r d, s.pc g = .tParked r d → r ≤ d
-  t_timed : ∀ g r d, s.pc g = .tParked r d → s.timed = true
-
-theorem inv_init (k lp : Bool) (n : Nat) : Inv k (init k false lp n) := by
-  constructor <;> (simp only [init]) <;> grind [Pc.woke, Pc.inQ, Pc.rechecks]
 
 theorem mem_of_mem_erase' {l : List Fid} {a f : Fid} (h : a ∈ l.erase f) : a ∈ l := List.mem_of_mem_erase h
 
@@ -32,52 +12,108 @@ theorem erase_nil_of_length {l : List Fid} {f : Fid} (h : f ∈ l) (h1 : l.lengt
   have : (l.erase f).length = 0 := by omega
   exact List.length_eq_zero_iff.mp this
 
+structure Inv (k : Bool) (s : State) : Prop where
+  hk : s.timed = k
+  cnt : s.count = s.holders.length
+  own : ∀ a, a ∈ s.holders → s.owner = some a
+  /-- notified fibers re-evaluate the condition next -/
+  transit_pc : ∀ g, g ∈ s.transit → (s.pc g).rechecks = true
+  /-- no lost wake-up: a free mutex with parked lockers has a notified locker on its way -/
+  free_transit : s.count = 0 → s.rq ≠ [] → s.transit ≠ []
+  rq_pc : ∀ g, g ∈ s.rq → (s.pc g).inQ = true
+  pc_rq : ∀ g, (s.pc g).inQ = true → g ∈ s.rq
+  dl : ∀ g r d, s.pc g = .tParked r d → r ≤ d
+  t_timed : ∀ g r d, s.pc g = .tParked r d → s.timed = true
+  tl_timed : ∀ g r, s.pc g = .tLocking r → s.timed = true
+
+theorem inv_init (k : Bool) (n : Nat) : Inv k (init k n) := by
+  constructor <;> (simp only [init]) <;> grind [Pc.inQ, Pc.rechecks]
+
+theorem rechecks_wake {p : Pc} (h : p.inQ = true) : (wake p).rechecks = true := by
+  cases p <;> simp_all [Pc.inQ, wake, Pc.rechecks]
+theorem wake_not_inQ {p : Pc} (h : p.inQ = true) : (wake p).inQ = false := by
+  cases p <;> simp_all [Pc.inQ, wake]
+theorem wake_ne_tParked {p : Pc} (h : p.inQ = true) (r d : Nat) : wake p ≠ .tParked r d := by
+  cases p <;> simp_all [Pc.inQ, wake]
+theorem wake_tLocking {p : Pc} {r : Nat} (h : wake p = .tLocking r) : (∃ d, p = .tParked r d) ∨ p = .tLocking r := by
+  cases p <;> simp_all [wake]
+theorem inQ_not_rechecks {p : Pc} (h : p.inQ = true) : p.rechecks = false := by
+  cases p <;> simp_all [Pc.inQ, Pc.rechecks]
+
 macro "rm_auto" : tactic =>
-  `(tactic| (constructor <;> (try simp only [lockHelper, doWokenAcq, doUnlock, notifyR, doPark, doTlfPark, doTlfTimeout, doTlfRepark, Free] at *) <;>
-      grind [upd_apply, mem_rm, Mx.length_erase_mem, mem_of_mem_erase', erase_nil_of_length, List.length_append,
-        Pc.woke, Pc.inQ, Pc.rechecks]))
+  `(tactic| (constructor <;> (try simp only [lockHelper, doUnlock, notifyR, doPark, doTlfPark, doTlfTimeout, doTlfRepark,
+      Free, PatchPick, PickOk] at *) <;>
+      grind [upd_apply, mem_rm, rm_ne_nil, Mx.length_erase_mem, mem_of_mem_erase', erase_nil_of_length, List.length_append,
+        Pc.inQ, Pc.rechecks, rechecks_wake, wake_not_inQ, wake_ne_tParked, wake_tLocking,
+        inQ_not_rechecks]))
 
 set_option maxHeartbeats 4000000 in
 theorem inv_step {k s l s'} (hi : Inv k s) (hs : Step s l s') : Inv k s' := by
   cases hs with
   | lockFast f h hf => cases hi; rm_auto
   | lockPark f h hf => cases hi; rm_auto
-  | lockWokenAcq f h => have := hi.no_woke f; rw [h] at this; simp [Pc.woke] at this
-  | lockRecheckAcq f h hf => have := hi.no_rechecks f; rw [h] at this; simp [Pc.rechecks] at this
-  | lockRepark f h hf => have := hi.no_rechecks f; rw [h] at this; simp [Pc.rechecks] at this
+  | lockRecheckAcq f h hf => cases hi; rm_auto
+  | lockRepark f h hf => cases hi; rm_auto
   | tryOk f h hf => cases hi; rm_auto
   | tryFail f h hf => cases hi; rm_auto
-  | unlock f h hh hp => cases hi; rm_auto
-  | unlockPatched f w h hh hp hw => have h1 := hi.np; simp_all
+  | unlock f w h hh hw => cases hi; cases w <;> rm_auto
   | tlfFast f hk h hf => cases hi; rm_auto
   | tlfPark f t d j hk h hf ht => cases hi; rm_auto
-  | tlfWokenAcq f hk h => have := hi.no_woke f; rw [h] at this; simp [Pc.woke] at this
-  | tlfRecheckAcq f req hk h hf => have := hi.no_rechecks f; rw [h] at this; simp [Pc.rechecks] at this
-  | tlfRepark f req j hk h hf => have := hi.no_rechecks f; rw [h] at this; simp [Pc.rechecks] at this
+  | tlfRecheckAcq f req hk h hf => cases hi; rm_auto
+  | tlfRepark f req j hk h hf => cases hi; rm_auto
   | tlfTimeout f t req dl hk h hd ht => cases hi; rm_auto
   | sleepStart f t d h ht => cases hi; rm_auto
   | sleepWake f t dl h hd ht => cases hi; rm_auto
   | finish f h => cases hi; rm_auto
 
-theorem inv_reachable {k lp n s} (h : Reachable k false lp n s) : Inv k s := by
+theorem inv_reachable {k n s} (h : Reachable k n s) : Inv k s := by
   induction h with
-  | init => exact inv_init k lp n
+  | init => exact inv_init k n
   | step _ hs ih => exact inv_step ih hs
 
-/-- in a quiescent state every fiber has finished or is parked by `lock()` -/
+/-- in a quiescent state every fiber has finished or is parked by `lock()` … -/
 theorem quiescent_classify {k s} (hi : Inv k s) (hq : Quiescent s) (f : Fid) : s.pc f = .done ∨ s.pc f = .parked := by
   cases hp : s.pc f with
   | idle => exact absurd (Step.finish s f hp) (hq _ _)
   | done => exact Or.inl rfl
   | parked => exact Or.inr rfl
-  | woken => exact absurd (Step.lockWokenAcq s f hp) (hq _ _)
   | tParked r d =>
       exact absurd (Step.tlfTimeout s f (max s.now d) r d (hi.t_timed f r d hp) hp (Nat.le_max_right _ _)
         (Nat.le_max_left _ _)) (hq _ _)
-  | tWoken => have := hi.no_woke f; rw [hp] at this; simp [Pc.woke] at this
-  | locking => have := hi.no_rechecks f; rw [hp] at this; simp [Pc.rechecks] at this
-  | tLocking r => have := hi.no_rechecks f; rw [hp] at this; simp [Pc.rechecks] at this
+  | locking =>
+      by_cases hf : Free s f
+      · exact absurd (Step.lockRecheckAcq s f hp hf) (hq _ _)
+      · exact absurd (Step.lockRepark s f hp hf) (hq _ _)
+  | tLocking r =>
+      by_cases hf : Free s f
+      · exact absurd (Step.tlfRecheckAcq s f r (hi.tl_timed f r hp) hp hf) (hq _ _)
+      · exact absurd (Step.tlfRepark s f r 0 (hi.tl_timed f r hp) hp hf) (hq _ _)
   | sleeping d =>
       exact absurd (Step.sleepWake s f (max s.now d) d hp (Nat.le_max_right _ _) (Nat.le_max_left _ _)) (hq _ _)
+
+/-- … on a mutex that really is held -/
+theorem quiescent_parked_held {k s} (hi : Inv k s) (hq : Quiescent s) (f : Fid) (hp : s.pc f = .parked) :
+    s.count ≠ 0 ∧ s.holders ≠ [] := by
+  have hrq : s.rq ≠ [] := by
+    intro h0
+    have := hi.pc_rq f (by rw [hp]; rfl)
+    rw [h0] at this; cases this
+  have hc : s.count ≠ 0 := by
+    intro hc
+    have ht := hi.free_transit hc hrq
+    cases htr : s.transit with
+    | nil => exact ht htr
+    | cons g rest =>
+        have hw := hi.transit_pc g (by rw [htr]; simp)
+        have hfree : Free s g := Or.inl hc
+        cases hg : s.pc g with
+        | locking => exact (hq _ _) (Step.lockRecheckAcq s g hg hfree)
+        | tLocking r => exact (hq _ _) (Step.tlfRecheckAcq s g r (hi.tl_timed g r hg) hg hfree)
+        | _ => rw [hg] at hw; simp [Pc.rechecks] at hw
+  refine ⟨hc, ?_⟩
+  intro h0
+  have := hi.cnt
+  rw [h0] at this
+  exact hc (by simpa using this)
 
 end Yaclib.FiberSync.Rm
